@@ -3,7 +3,11 @@ import logging
 
 from batchie import introspection
 from batchie import log_config
-from batchie.cli.argument_parsing import KVAppendAction, cast_dict_to_type
+from batchie.cli.argument_parsing import (
+    KVAppendAction,
+    cast_dict_to_type,
+    get_prng_from_seed_argument,
+)
 from batchie.core import ThetaHolder, Scorer
 from batchie.data import Screen
 from batchie.distance_calculation import ChunkedDistanceMatrix
@@ -133,11 +137,14 @@ def main():
         [ChunkedDistanceMatrix.load(x) for x in args.distance_matrix]
     )
 
+    rng = get_prng_from_seed_argument(args)
+
     result = score_chunk(
         scorer=scorer,
         thetas=thetas,
         screen=screen,
         distance_matrix=distance_matrix,
+        rng=rng,
         progress_bar=args.progress,
         n_chunks=args.n_chunks,
         chunk_index=args.chunk_index,
